@@ -751,6 +751,17 @@ def c16(tier, replay):
         for pre in ([], [{"do": "send", "line": f}, {"do": "go", "line": "go wtime 1100 btime 1100 movestogo 1"}]):
             sessions.append(pre + probe)
             shard.append(nprobe + 30 + fi % 6)
+    # LONG prefixes: a game with repeated positions, then 2^k - 1 / 2^k further position commands (k = 6..8), then the probe from
+    # the position that game started in - per-game state that is "cleared" by bumping a small counter comes back when the
+    # counter wraps (an epoch tag inside the repetition record, a generation byte in a cache)
+    shuffle = "position startpos moves g1f3 g8f6 f3g1 f6g8 g1f3 g8f6 f3g1 f6g8"
+    longprobe = [{"do": "send", "line": "position startpos"}, {"do": "go", "line": "go wtime 475 btime 475 movestogo 1", "extra": {"probe": "wrap", "timed": True}}]
+    sessions.append(list(longprobe))
+    shard.append(nprobe + 43)
+    for n in ((62, 63, 126, 127, 254, 255) if q else (30, 31, 62, 63, 64, 126, 127, 128, 254, 255, 256, 510, 511, 1022, 1023)):
+        fill = [{"do": "send", "line": live[i % len(live)]} for i in range(n)]
+        sessions.append([{"do": "send", "line": shuffle}, {"do": "go", "line": "go"}] + fill + longprobe)
+        shard.append(nprobe + 43)
     # probes whose move list contains promotions of every kind (a replayed under-promotion must not depend on anything
     # but its letter), asked of a fresh process and of one whose logging was switched on before (setoption DebugLogLevel
     # Info is the one option the engine has; whatever is formatted for the log is only evaluated then)
